@@ -881,8 +881,9 @@ class _Ctx:
             return f_not(ADiv(t.args[1], e))
         if isinstance(t, App) and t.fn == 'len':
             return mk_cmp(t, '!=', Num(Fraction(0)))
-        if isinstance(t, Fresh) and t.kind in ('list', 'dict', 'set', 'tuple') and t.detail is None:
-            return FConst(len(t.items) > 0) if t.kind != 'dict' else ATruthy(t)
+        if isinstance(t, Fresh) and t.kind in ('list', 'dict', 'set', 'call:list', 'call:dict', 'call:set', 'listcomp', 'dictcomp', 'copy'):
+            # the allocation may have been filled since: truthiness == non-empty, not a constant
+            return mk_cmp(App('len', (t,)), '!=', Num(Fraction(0)))
         if isinstance(t, TupleT):
             return FConst(len(t.items) > 0)
         if isinstance(t, App) and t.fn == 'bool' and len(t.args) == 1:
